@@ -117,6 +117,19 @@ Theorem C04_fragments_loops : forall nt ne steps eps total f,
 Proof. exact frag_off_counters. Qed.
 Print Assumptions C04_fragments_loops.
 
+(* gSDE noise resampling inside collect_rollouts: same cadence law as on-policy (multiples of sde_sample_freq, counted from the
+   start of each collect_rollouts call), from the regenerated guard; the per-env noise reset is guarded by `action_noise is not None` *)
+Theorem C04_sde_resampling_cadence : forall u f k x,
+  (In x (sde_calls u f k) <-> (u = true /\ x = 0) \/ (0 <= x < Z.of_nat k /\ sde_resample u f x = true)) /\
+  (sde_resample u f x = true <-> u = true /\ 0 < f /\ exists q, x = q * f).
+Proof. exact (fun u f k x => conj (sde_calls_spec u f k x) (sde_resample_iff u f x)). Qed.
+Print Assumptions C04_sde_resampling_cadence.
+
+Theorem C04_fragment_sde_noise : forall u f j hn,
+  off_sde_guard u f j = sde_resample u f j /\ off_sde_start_guard u = u /\ off_noise_reset_guard hn = hn.
+Proof. exact frag_off_sde. Qed.
+Print Assumptions C04_fragment_sde_noise.
+
 (* ---- non-vacuity ---- *)
 Definition ex4_sc : script :=
   [mk_episode 10 0 [mk_sstep 11 4 false false 0; mk_sstep 12 (-8) false true 0];
